@@ -128,6 +128,22 @@ def recorded_trace(args):
                 c2f = reg._map['duct2gap'][:nf, :]
                 same = int(len(lenc) == nf and np.allclose(
                     np.cumsum(lenc), np.cumsum(lenf), rtol=0, atol=1e-12))
+                # gap cells between two sides that no pin bundle defines
+                # reach to the middle of both sides: their length along the
+                # duct is one hexagon side of the duct as given in the input
+                want = (case.get('_hexside_cells') or {}).get(a)
+                if want is not None:
+                    tname = case['assign'][a][0]
+                    side = max(case['types'][tname]['duct_ftf']) / 3 ** 0.5
+                    got = int(np.sum(np.abs(lenf - side) <= 1e-12))
+                    if got < want:
+                        same = 1       # the meshes must coincide there ...
+                        ident = 0      # ... and do not
+                        out.append({'label': f'{label}/a{a}/r{ri}/cells',
+                                    'cfg': {'xc': [0, 1, 2], 'xf': [0, 1, 2],
+                                            'P': 2},
+                                    'ev': [{'e': 'Cells', 'want': want,
+                                            'got': got}]})
                 ident = int(f2c.shape == (nf, nf) and
                             np.array_equal(f2c, np.identity(nf)))
                 consF = (lenc @ f2c) / lenf          # unit vector f -> 1
@@ -179,6 +195,37 @@ def run(tier, res, replay=None):
             cc = copy.deepcopy(c)
             cc['ftf_listing'] = listing
             rec.append((f'{lab}-{listing}', cc))
+    # assemblies without a pin bundle: sides that no bundle defines hold
+    # corner cells only, meeting in the middle of the side
+    from harness.scenarios import fitted_type, make_core, flow_for, \
+        layout_positions, add_regions
+    p7 = layout_positions(7)
+    UL = fitted_type(3, 0.060, use_low_fidelity_model=True,
+                     low_fidelity_model='simple')
+    c = make_core(rng, {'U': UL}, [(r_, p_, 'U') for (r_, p_) in p7],
+                  [flow_for(UL, 0.1)] * 7, gap_model='flow',
+                  bypass_fraction=0.05)
+    c['_hexside_cells'] = {a: 6 for a in range(7)}
+    rec.append(('7-all-lowfi', c))
+    c1 = make_core(rng, {'U': copy.deepcopy(UL)}, [(1, 1, 'U')],
+                   [flow_for(UL, 0.1)], gap_model='flow',
+                   bypass_fraction=0.05)
+    c1['_hexside_cells'] = {0: 6}
+    rec.append(('1-lowfi', c1))
+    F3 = add_regions(fitted_type(3, 0.060), 0.6,
+                     lower=dict(model='simple', vf_coolant=0.3))
+    U6 = fitted_type(3, 0.060, use_low_fidelity_model=True,
+                     low_fidelity_model='6node')
+    names = ['F', 'R', 'R', 'R', 'R', 'R', 'R']
+    types = {'F': F3, 'R': U6}
+    c = make_core(rng, types, [(r_, p_, names[i]) for i, (r_, p_) in
+                               enumerate(p7)],
+                  [flow_for(types[n], 0.1) for n in names], gap_model='flow',
+                  bypass_fraction=0.05)
+    # a reflector of the ring: one side follows the bundle at the centre,
+    # five consecutive sides are defined by no bundle -> four cells between
+    c['_hexside_cells'] = {a: 4 for a in range(1, 7)}
+    rec.append(('7-bundle-among-lowfi', c))
     with ProcessPoolExecutor(max_workers=common.NCPU) as ex:
         traces = list(ex.map(synth_trace, syn, chunksize=8))
         for t in ex.map(recorded_trace, rec):
